@@ -136,6 +136,8 @@ def run(ctx):
 
     # ------------------------------------------------------------------ K4 byte cursor discipline
     nlex = 0
+    ncur = 0
+    nwr = 0
     for lang in ("gql", "cypher", "sparql", "gremlin", "graphql"):
         pre = "grafeo_adapters::query::%s::lexer::" % lang
         fns = [f for f in P.fns.values() if f.id.startswith(pre) or ("<" + pre) in f.id]
@@ -148,7 +150,7 @@ def run(ctx):
         for f in fns:
             fx = None
             for bi, t in f.calls():
-                c = t["f"] or ""
+                c = callee_name(t)
                 if c.startswith("core::str::traits::") and c.endswith("::index") and len(t["args"]) >= 2:
                     fx = fx or FlowCx(P, f)
                     tg = fx.tags(t["args"][1])
@@ -188,7 +190,11 @@ def run(ctx):
                                 "the character's len_utf8(): non-ASCII input makes the lexer slice inside a UTF-8 sequence and panic"
                                 % (short_id(f.id), name), where=f.loc(ln))
         ctx.note("K4 %s: slicing cursors %s, %d cursor writes" % (lang, sorted(cursors), nw))
+        ncur += len(cursors)
+        nwr += nw
     ctx.floor("K4", nlex, 5, "lexers")
+    ctx.floor("K4", ncur, 4, "lexer fields used to slice the source string")
+    ctx.floor("K4", nwr, 8, "writes of slicing cursors")
 
     # ------------------------------------------------------------------ K5 recursion depth
     # A depth check is a parser method that compares a Parser field with a constant, returns an error on the far
